@@ -261,6 +261,28 @@ func c05Extremes(t *testing.T, rec *ev.Recorder) {
 			}
 		}
 	}
+	// a loop at the bottom of a very deep recursion while a loop at the top is suspended:
+	// whatever keys the iterator contexts by call depth has to tell the two apart
+	for _, depth := range []int{32767, 32768, 65535, 65536, 65537, 131072} {
+		s := run.NewSession()
+		for _, src := range []string{
+			"deep = (n) -> {\nif n <= 0 {\nt = 0\nfor j <- fromto(0, 3) t = t + j\nreturn t\n}\ndeep(n - 1)\n}",
+			fmt.Sprintf("{\nr = []\nfor i <- fromto(0, 2) r = r + [i * 10 + deep(%d)]\nr\n}", depth),
+		} {
+			vr := s.Run(src, false, 0)
+			if vr.Panic != "" {
+				ev.Repro("C05", "session", map[string]any{"stmts": []string{src}, "discard": false})
+				t.Fatalf("loops at call depths 0 and %d: %s\n%s", depth, firstLine(vr.Panic), stackTop(vr.Stack))
+			}
+			if vr.Err != "" && !documentedError(vr.Err) {
+				t.Fatalf("loops at call depths 0 and %d: undocumented error %q", depth, vr.Err)
+			}
+			if vr.Err == "" && strings.HasPrefix(src, "{") && ref.Str(vr.Val) != "[3, 13]" {
+				ev.Repro("C05", "session", map[string]any{"stmts": []string{src}, "discard": false})
+				t.Fatalf("loops at call depths 0 and %d: value %s, expected [3, 13]", depth, ref.Str(vr.Val))
+			}
+		}
+	}
 	rec.Count("extreme_operand_statements", len(stmts))
 	rec.Case("operators, indices and slices over extreme operands", true, "extremes")
 }
